@@ -19,7 +19,7 @@ func checkC16(r *Run) {
 	r.Rule("R5", "a return inside a loop body leaves the loop and is propagated as a return", 3)
 	r.Rule("R6", "first-class functions: the callee is obtained by evaluating the call's function expression on every call, recognised by a comma-ok assertion before the reflect path; the literal captures Parameters and Block unmodified", 2)
 	r.Rule("R7", "return always produces an exit object: the return evaluator wraps every value (also nil) when the statement is a return", 1)
-	userFunctionCallRule(r)
+	userFunctionCallRuleSSA(r)
 	coreBlockRules(r, "", "R3")
 	exitEscapesRule(r, "R4")
 	loopReturnRuleSSA(r, "R5")
